@@ -822,50 +822,96 @@ Proof.
 Qed.
 
 (* ---------- OpenFile ---------- *)
-Definition hit_b (c : cache_state) : bool := match c with CHit => true | _ => false end.
-(* the one call outside the class: OpenFile of a DIRECTORY of the base that is not served as a hit —
-   CacheOnReadFs.OpenFile then copies the directory like a file (copyFileToLayer) and fails with EIO *)
-Definition openfile_dir_ok (dur now : Z) (sb sl : mst) (p : str) : bool :=
-  negb (is_dir_at sb (normalize_path p)) || hit_b (cs_state (cache_status m_step m_step dur now sb sl p)).
-
 Lemma copyfiletolayer_clears_append_is_1 : copyfiletolayer_clears_append = 1. Proof. reflexivity. Qed.
 Lemma cache_openfile_clears_excl_is_1 : cache_openfile_clears_excl = 1. Proof. reflexivity. Qed.
+(* CacheOnReadFs.OpenFile makes a directory of the base in the layer instead of copying it like a file.
+   Compiles iff Gen/Consts.v (read from cacheOnReadFs.go) says so. *)
+Lemma cache_openfile_dir_mkdir_fact : cache_openfile_dir_mkdir = 1. Proof. reflexivity. Qed.
+
+(* a directory of the base made in the layer with MkdirAll (CacheOnReadFs.copyToLayer, CacheOnReadFs.OpenFile) *)
+Lemma cinv_dir_into_layer sb sl tbl phi p pm fb nb :
+  CInvP sb sl tbl phi -> wf_name p = true ->
+  lookup sb (normalize_path p) = Some fb -> get_node sb fb = Some nb -> ndir nb = true ->
+  exists sl' phi', m_step sl (MkdirAll p pm) = (sl', ROk) /\ CInvP sb sl' tbl phi'.
+Proof.
+  intros [T B] Hw Hlb Hnb Hnd. set (key := normalize_path p) in *.
+  pose proof (ti_wfb _ _ _ T) as Wb. pose proof (ti_wfl _ _ _ T) as Wl.
+  assert (Hc : canon key) by (apply canon_normalize; exact Hw).
+  assert (Hpre : prefixes_dirs sl key = true).
+  { apply (prefixes_base_layer sb sl phi (TreeInv_shape _ _ _ T)). apply (dir_prefixes_dirs sb key Wb Hc).
+    unfold is_dir_at, kind_at. now rewrite Hlb, Hnb, Hnd. }
+  destruct (mkdirall_step sl p pm Wl Hw Hpre) as (Hres & Wl' & Fl & Dl & Hhl & Hdl & Hch). fold key in Hdl, Hch.
+  destruct (m_step sl (MkdirAll p pm)) as [sl' r]. cbn [fst snd] in *. subst r.
+  destruct (cinv_frames sb sl tbl phi sb sl' Some (conj T B) Wb Wl' (frame_refl sb) Fl) as (phi' & C' & _).
+  { now apply dkeep_view. } { exact Dl. } { apply hkeep_refl. } { intros i h H. now rewrite Hhl. }
+  { intros k' rl Hk Hf. destruct (Hch k' rl Hk Hf) as (Hwhere & n & Hn & Hdn & Hen).
+    assert (Hbk : exists ra na, lookup sb k' = Some ra /\ get_node sb ra = Some na /\ ndir na = true).
+    { destruct Hwhere as [->|Hbel]; [now exists fb, nb|]. exact (anc_live sb key fb k' Wb Hlb (g_canon _ _ _ _ Wl' k' rl Hk) Hbel). }
+    destruct Hbk as (ra & na & Hla & Hna & Hda). exists ra, n, na. repeat split; auto; try congruence.
+    now rewrite (ti_dirs _ _ _ T k' ra na Hla Hna Hda). }
+  now exists sl', phi'.
+Qed.
 
 Theorem cinv_openfile dur now sb sl tbl p flag perm :
-  CInv (sb, sl, tbl) -> WfOps.wf_op_ord sb (OpenFile p flag perm) = true -> openfile_dir_ok dur now sb sl p = true ->
+  CInv (sb, sl, tbl) -> WfOps.wf_op_ord sb (OpenFile p flag perm) = true ->
   CInv (fst (cache_step m_step m_step dur now (sb, sl, tbl) (OpenFile p flag perm))).
 Proof.
-  intros (phi & C) Hwf Hok. cbn [cache_step]. set (key := normalize_path p) in *.
+  intros (phi & C) Hwf. cbn [cache_step]. set (key := normalize_path p) in *.
   pose proof Hwf as Hwf0. cbn [WfOps.wf_op_ord] in Hwf0. fold key in Hwf0. apply andb_true_iff in Hwf0 as [Hw Hk]. apply andb_true_iff in Hw as [Hw Hfo].
-  unfold openfile_dir_ok in Hok. fold key in Hok.
   destruct (status_mem dur now sb sl phi p (TreeInv_shape _ _ _ (proj1 C))) as (sb1 & sl1 & cs & fi & Est & Sb & Sl & Hcs).
-  rewrite Est in *. cbn [cs_state] in Hok. pose proof (CInvP_view sb sl tbl phi sb1 sl1 Sb Sl C) as C1.
+  rewrite Est. pose proof (CInvP_view sb sl tbl phi sb1 sl1 Sb Sl C) as C1.
   pose proof (same3_kind_same _ _ Sb) as Kb.
-  rewrite copyfiletolayer_clears_append_is_1, cache_openfile_clears_excl_is_1. cbn [Z.eqb Pos.eqb].
-  (* miss / stale: the copy, then the opening with O_EXCL cleared *)
-  assert (Hcopy : is_dir_at sb key = false ->
-            CInv (fst (match copy_to_layer_with m_step m_step sb1 sl1 p (OpenFile p (Z.land flag (Z.lnot o_append)) perm) with
-                       | (sb2, sl2, Some ce) => cret sb2 sl2 tbl (RErr ce)
-                       | (sb2, sl2, None) => open_tail sb2 sl2 tbl p (Z.land flag (Z.lnot o_excl)) perm
-                       end))).
-  { intros Hnd. rewrite (flag_ok_no_append flag Hfo).
-    destruct (cinv_copy_with sb1 sl1 tbl phi p flag perm C1) as (sb2 & sl2 & oe & phi2 & Ecp & C2 & Hfile).
-    { rewrite (ks_wf_op sb sb1 Kb). exact Hwf. } { fold key. rewrite (ks_is_dir sb sb1 Kb). exact Hnd. }
-    rewrite Ecp. destruct oe as [ce|]; [cbn [fst cret]; now exists phi2|].
-    apply (cinv_open_tail sb2 sl2 tbl phi2 p _ perm C2 (flag_ok_clear_excl flag Hfo)). intros _. exact (Hfile eq_refl). }
-  destruct cs; cbn [hit_b] in Hok; rewrite ?orb_false_r in Hok.
-  - apply negb_true_iff in Hok. exact (Hcopy Hok).
-  - apply negb_true_iff in Hok. exact (Hcopy Hok).
+  rewrite copyfiletolayer_clears_append_is_1, cache_openfile_clears_excl_is_1, cache_openfile_dir_mkdir_fact. cbn [Z.eqb Pos.eqb].
+  (* a directory of the base: no access mode, no O_CREATE, no O_TRUNC in a well-formed flag word *)
+  assert (Hdirmask : kind_at sb key = Some true -> Z.land flag cache_mask = 0).
+  { intros Ekb. rewrite Ekb in Hk. apply andb_true_iff in Hk as [Ha Hc]. apply Z.eqb_eq in Ha. apply negb_true_iff in Hc.
+    rewrite (cache_mask_flag flag Hfo), Ha, (flag_has_zero flag o_create ltac:(discriminate) Hc), (flag_ok_trunc_access flag Hfo Ha). reflexivity. }
+  (* miss / stale: Stat of the base; a directory is made in the layer, anything else goes through copyFileToLayer;
+     then the opening with O_EXCL cleared *)
+  assert (Hcopy : CInv (fst (match (match m_step sb1 (Stat p) with
+                                    | (sb1', RInfo bfi) =>
+                                      if fi_dir bfi then
+                                        match m_step sl1 (MkdirAll p (Z.land (fi_mode bfi) 511)) with
+                                        | (sl2, ROk) => (sb1', sl2, None)
+                                        | (sl2, r) => (sb1', sl2, Some (err_of r))
+                                        end
+                                      else copy_to_layer_with m_step m_step sb1' sl1 p (OpenFile p (Z.land flag (Z.lnot o_append)) perm)
+                                    | (sb1', _) => copy_to_layer_with m_step m_step sb1' sl1 p (OpenFile p (Z.land flag (Z.lnot o_append)) perm)
+                                    end) with
+                             | (sb2, sl2, Some ce) => cret sb2 sl2 tbl (RErr ce)
+                             | (sb2, sl2, None) => open_tail sb2 sl2 tbl p (Z.land flag (Z.lnot o_excl)) perm
+                             end))).
+  { rewrite (step_stat_full sb1 p (ti_wfb _ _ _ (proj1 C1))). fold key. rewrite (flag_ok_no_append flag Hfo).
+    assert (C1' : CInvP (bump sb1) sl1 tbl phi) by (apply (CInvP_view sb1 sl1 tbl phi); [apply same3_bump | apply same3_refl | exact C1]).
+    assert (Kb' : kind_same sb (bump sb1)) by (eapply kind_same_trans; [exact Kb | apply same3_kind_same, same3_bump]).
+    assert (Hnotdir : is_dir_at sb1 key = false ->
+              CInv (fst (match copy_to_layer_with m_step m_step (bump sb1) sl1 p (OpenFile p flag perm) with
+                         | (sb2, sl2, Some ce) => cret sb2 sl2 tbl (RErr ce)
+                         | (sb2, sl2, None) => open_tail sb2 sl2 tbl p (Z.land flag (Z.lnot o_excl)) perm
+                         end))).
+    { intros Hnd. destruct (cinv_copy_with (bump sb1) sl1 tbl phi p flag perm C1') as (sb2 & sl2 & oe & phi2 & Ecp & C2 & Hf2).
+      { rewrite (ks_wf_op sb (bump sb1) Kb'). exact Hwf. } { exact Hnd. }
+      rewrite Ecp. destruct oe as [ce|]; [cbn [fst cret]; now exists phi2|].
+      apply (cinv_open_tail sb2 sl2 tbl phi2 p _ perm C2 (flag_ok_clear_excl flag Hfo)). intros _. exact (Hf2 eq_refl). }
+    destruct (lookup sb1 key) as [fb|] eqn:Hlb.
+    - destruct (GWF_lookup_node _ _ _ _ _ _ (ti_wfb _ _ _ (proj1 C1)) Hlb) as (nb & Hnb). rewrite Hnb. cbn [fi_dir fi_mode finfo_of].
+      destruct (ndir nb) eqn:Hnd.
+      + destruct (cinv_dir_into_layer (bump sb1) sl1 tbl phi p (Z.land (nmode nb) 511) fb nb C1' Hw Hlb Hnb Hnd) as (sl2 & phi2 & Emk & C2).
+        rewrite Emk. apply (cinv_open_tail (bump sb1) sl2 tbl phi2 p _ perm C2 (flag_ok_clear_excl flag Hfo)).
+        intros Hm. exfalso. apply Hm. destruct (clear_excl_bits flag) as (_ & Em & _). rewrite Em. apply Hdirmask.
+        rewrite <- (kind_same_kind sb sb1 key Kb). unfold kind_at. now rewrite Hlb, Hnb, Hnd.
+      + apply Hnotdir. unfold is_dir_at, kind_at. now rewrite Hlb, Hnb, Hnd.
+    - apply Hnotdir. unfold is_dir_at, kind_at. now rewrite Hlb. }
+  destruct cs.
+  - exact Hcopy.
+  - exact Hcopy.
   - (* hit *)
     change (CInv (fst (open_tail sb1 sl1 tbl p flag perm))).
     apply (cinv_open_tail sb1 sl1 tbl phi p flag perm C1 Hfo). intros Hm.
     destruct Hcs as (rl & nl & f & Hl & Hnl & _). fold key in Hl.
     unfold is_file_at, kind_at. fold key. rewrite (same3_lookup _ _ _ Sl), Hl, (same3_node _ _ _ Sl), Hnl.
-    destruct (ndir nl) eqn:Hd; [|reflexivity]. exfalso. apply Hm.
-    assert (Ekb : kind_at sb key = Some true).
-    { apply (layer_kind_base sb sl phi (TreeInv_shape _ _ _ (proj1 C)) key true). unfold kind_at. now rewrite Hl, Hnl, Hd. }
-    rewrite Ekb in Hk. apply andb_true_iff in Hk as [Ha Hc]. apply Z.eqb_eq in Ha. apply negb_true_iff in Hc.
-    rewrite (cache_mask_flag flag Hfo), Ha, (flag_has_zero flag o_create ltac:(discriminate) Hc), (flag_ok_trunc_access flag Hfo Ha). reflexivity.
+    destruct (ndir nl) eqn:Hd; [|reflexivity]. exfalso. apply Hm. apply Hdirmask.
+    apply (layer_kind_base sb sl phi (TreeInv_shape _ _ _ (proj1 C)) key true). unfold kind_at. now rewrite Hl, Hnl, Hd.
   - destruct Hcs.
 Qed.
 
@@ -903,10 +949,12 @@ Proof.
   pose proof (base_none_layer_none sb sl phi TS _ Hlb) as Hll.
   destruct (status_mem dur now sb sl phi p TS) as (sb1 & sl1 & cs & fi & Est & Sb & Sl & Hcs).
   rewrite Est. pose proof (CInvP_view sb sl tbl phi sb1 sl1 Sb Sl C) as C1.
-  rewrite copyfiletolayer_clears_append_is_1. cbn [Z.eqb Pos.eqb].
-  assert (Hb1 : wf_below sb1 (OpenFile p flag perm) = true) by (rewrite (ks_wf_below sb sb1 (same3_kind_same _ _ Sb)); exact Hb).
-  assert (Hcp : copy_to_layer_with m_step m_step sb1 sl1 p (OpenFile p (Z.land flag (Z.lnot o_append)) perm) = (bump sb1, sl1, Some (EW KENOTDIR))).
-  { unfold copy_to_layer_with. rewrite (flag_ok_no_append flag Hfo), (below_step_bump sb1 _ (ti_wfb _ _ _ (proj1 C1)) Hb1). reflexivity. }
-  destruct cs; try (destruct Hcs as (rl & nl & f & Hl & _); congruence); try (destruct Hcs).
-  rewrite Hcp. cbn [fst cret]. exists phi. apply (CInvP_view sb1 sl1 tbl phi); [apply same3_bump | apply same3_refl | exact C1].
+  rewrite copyfiletolayer_clears_append_is_1, cache_openfile_dir_mkdir_fact. cbn [Z.eqb Pos.eqb].
+  assert (Hb1 : wf_below (bump sb1) (OpenFile p flag perm) = true).
+  { rewrite (ks_wf_below sb (bump sb1)); [exact Hb|]. eapply kind_same_trans; [exact (same3_kind_same _ _ Sb) | apply same3_kind_same, same3_bump]. }
+  assert (Hcp : copy_to_layer_with m_step m_step (bump sb1) sl1 p (OpenFile p (Z.land flag (Z.lnot o_append)) perm) = (bump (bump sb1), sl1, Some (EW KENOTDIR))).
+  { unfold copy_to_layer_with. rewrite (flag_ok_no_append flag Hfo), (below_step_bump (bump sb1) _ (WF_bump sb1 (ti_wfb _ _ _ (proj1 C1))) Hb1). reflexivity. }
+  destruct cs; [| destruct Hcs as (rl & nl & f & Hl & _); congruence | destruct Hcs as (rl & nl & f & Hl & _); congruence | destruct Hcs].
+  rewrite (step_stat_full sb1 p (ti_wfb _ _ _ (proj1 C1))). rewrite (same3_lookup sb sb1 (normalize_path p) Sb). rewrite Hlb, Hcp. cbn [fst cret].
+  exists phi. apply (CInvP_view sb1 sl1 tbl phi); [eapply same3_trans; apply same3_bump | apply same3_refl | exact C1].
 Qed.
